@@ -44,6 +44,8 @@ EVAL_OPS = [
     ("plot_contour", 2), ("plot_iso", 0.8), ("plot_dep", 1.2), ("plot_mq", 0.5), ("plot_hist", 0.8), ("save", 1.5), ("slice", 1.5),
     ("touch_returned", 1.5), ("deepcopy_eval", 1.0), ("repr", 0.5),
 ]
+# operations that legitimately draw from the global RNG (no seed can be passed to them)
+GLOBAL_RNG_USERS = {"plot_mq", "marginal_icdf", "and", "or"}  # Monte-Carlo inside, no seed parameter
 T_OPS = [("pdf", 4), ("draw_int", 3), ("t_iform", 1.0), ("t_empirical", 0.6), ("t_cond_sample", 1.5), ("t_empirical_sample", 1.2)]
 
 
@@ -609,15 +611,19 @@ def execute_universe(scen, only_slot=None, run=None):
             epoch_at[k] = fit_epoch[s]
             results = []
             exc = None
+            rng_touched = False
             reps = 2 if checking else 1
             seeded = op["op"] in ("draw_gen", "t_cond_sample") or (op["op"] == "draw_int" and (not slot.spec.get("transformed") or slot.spec.get("random_state") is not None))
             for rep in range(reps):
                 # an operation that was given a seed must not depend on the global RNG at all:
                 # its second execution runs under another global state
                 seams.pin_global(pin if (rep == 0 or not seeded) else pin + 7919)
+                g0 = core.digest(list(np.random.get_state())) if checking else None
                 try:
                     res, inputs = run_op(slot, op, root)
                     results.append(core.digest(res))
+                    if checking and rep == 0 and not slot.spec.get("transformed") and op["op"] not in GLOBAL_RNG_USERS and core.digest(list(np.random.get_state())) != g0:
+                        rng_touched = True
                 except Exception as e:  # noqa: BLE001
                     exc = e
                     results.append("EXC:" + type(e).__name__)
@@ -631,6 +637,12 @@ def execute_universe(scen, only_slot=None, run=None):
                             run.violate("I1-caller-array-modified", f"{op['op']}/{what}", {"slot": s, "kind": slot.spec["kind"], "shape_before": list(shp), "shape_after": list(a.shape), "step": k})
                             return digests
             digests[k] = results[0]
+            if checking and rng_touched:
+                # an evaluation that was given a seed, or that involves no sampling at all, has no business
+                # with NumPy's process-wide legacy RNG: re-seeding or consuming it changes what the caller's
+                # own unseeded code does next
+                run.violate("I1-global-rng-touched-by-a-deterministic-evaluation", f"{op['op']}", {"slot": s, "kind": slot.spec["kind"], "step": k})
+                return digests
             if checking and inputs:
                 # an evaluation must not keep the caller's array: what the caller does with it later would
                 # change the model's answers
